@@ -143,7 +143,7 @@ var c18CbNames = []string{"collect", "stop@1", "stop@2", "err@1", "err@2", "stop
 // c18Alphabet builds the operation alphabet for a size class:
 //
 //	0 full:  5 keys x 5 values, 5 prefixes x 5 callbacks
-//	1 quick in-memory: like full with 3 values (JSON string, raw binary, empty)
+//	1 in-memory: like full with 4 values (JSON int and JSON string: different encoded lengths, raw binary, empty binary)
 //	2 small (file-backed store, thorough): 3 keys, 2 values, 2 prefixes x 3 callbacks
 //	3 tiny  (file-backed store, quick): 2 keys, 2 values, 3 iterations, no Get
 //	  (every step is followed by a full read-back anyway)
@@ -156,7 +156,7 @@ func c18Alphabet(withReopen bool, size int) []c18Op {
 	gets := true
 	switch size {
 	case 1:
-		vals = []int{1, 3, 4}
+		vals = []int{0, 1, 3, 4} // two JSON kinds of different encoded length (int, string), raw binary, empty binary
 	case 2:
 		keys = []int{0, 1, 4}   // a, ab, b
 		vals = []int{0, 4}      // int7, binEmpty
